@@ -6,9 +6,10 @@ for f in glob.glob("/verif/gmxsa/props.d/C*.json"):
     PROPS[os.path.basename(f)[:-5]] = json.load(open(f))
 ids = [json.loads(l)["id"] for l in open("/verif/properties.jsonl")]
 kf = json.load(open("/verif/known-findings.json")) if os.path.exists("/verif/known-findings.json") else {}
+INTEGRATED = set(open("/verif/gmxsa/INTEGRATED").read().split())
 checks, na = [], []
 for i in ids:
-    if i in PROPS and os.path.exists("/verif/gmxsa/rules/%s.py" % i) and i not in NOT_APPLICABLE:
+    if i in INTEGRATED and i in PROPS and os.path.exists("/verif/gmxsa/rules/%s.py" % i) and i not in NOT_APPLICABLE:
         p = PROPS[i]
         checks.append({
             "property_id": i,
